@@ -3,8 +3,16 @@
 package f3
 
 import (
+	"context"
+	"os"
+
+	"github.com/filecoin-project/go-f3/certstore"
 	"github.com/filecoin-project/go-f3/gpbft"
+	"github.com/filecoin-project/go-f3/internal/clock"
+	"github.com/filecoin-project/go-f3/internal/writeaheadlog"
+	"github.com/filecoin-project/go-f3/manifest"
 	sym "github.com/filecoin-project/go-f3/internal/verifsym"
+	pubsub "github.com/libp2p/go-libp2p-pubsub"
 	"github.com/libp2p/go-libp2p/core/peer"
 )
 
@@ -25,6 +33,7 @@ func verifSymMessage(tag string, senders int) *gpbft.GMessage {
 			Instance: sym.Uint64(tag + "-instance"),
 			Round:    sym.Uint64(tag + "-round"),
 			Phase:    gpbft.Phase(sym.Uint8(tag + "-phase")),
+			SupplementalData: gpbft.SupplementalData{PowerTable: gpbft.MakeCid([]byte("verif-pt"))},
 		},
 		Signature: []byte{s[0], s[1]},
 	}
@@ -88,5 +97,115 @@ func VerifC12_FilterCompleteness() {
 	sym.Cover("second")
 	if fresh {
 		sym.Assert(ef.ProcessBroadcast(m2), "message for a fresh slot is let through")
+	}
+}
+
+// verifRunner builds a real gpbftRunner through the real constructor (so the
+// real WAL replay re-arms the equivocation filter), over a real WAL in dir.
+func verifRunner(dir string) (*gpbftRunner, *writeaheadlog.WriteAheadLog[walEntry, *walEntry]) {
+	wal, err := writeaheadlog.Open[walEntry](dir)
+	if err != nil {
+		panic(err)
+	}
+	cs, _, _, _ := certstore.VerifNewStore(0, 0)
+	ctx, _ := clock.WithMockClock(context.Background())
+	mf := manifest.LocalDevnetManifest()
+	mf.PubSub.CompressionEnabled = false // zstd is outside every claim
+	mf.PubSub.ChainCompressionEnabled = false
+	r, err := newRunner(ctx, cs, nil, new(pubsub.PubSub), gpbft.VerifCrypto{}, make(chan *gpbft.MessageBuilder, 8), mf, wal, peer.ID("local"))
+	if err != nil {
+		panic(err)
+	}
+	return r, wal
+}
+
+func verifWALHas(dir string, m *gpbft.GMessage) bool {
+	wal, err := writeaheadlog.Open[walEntry](dir)
+	if err != nil {
+		panic(err)
+	}
+	es, err := wal.All()
+	if err != nil {
+		panic(err)
+	}
+	for _, e := range es {
+		x := e.Message
+		if x.Sender == m.Sender && x.Vote.Instance == m.Vote.Instance && x.Vote.Round == m.Vote.Round && x.Vote.Phase == m.Vote.Phase && string(x.Signature) == string(m.Signature) {
+			return true
+		}
+	}
+	return false
+}
+
+// VerifC12_BroadcastDurableAcrossRestarts: the real BroadcastMessage /
+// rebroadcastMessage of a runner built by the real newRunner over a real WAL
+// (publishing disabled: no topic, so each call ends right before it would hand
+// the message to the network).  Every message that passed the filter is in the
+// WAL when the call returns (recorded before it could be published); after a
+// process restart at any point the re-armed filter refuses everything that
+// conflicts with what passed before the restart.
+func VerifC12_BroadcastDurableAcrossRestarts() {
+	dir, err := os.MkdirTemp("", "verifc12")
+	if err != nil {
+		panic(err)
+	}
+	defer os.RemoveAll(dir)
+	r, _ := verifRunner(dir)
+	var published []verifPublished
+	steps := 3 + sym.Tier()
+	for st := 0; st < steps; st++ {
+		switch sym.Choice("step", 2) {
+		case 0:
+			// small concrete universe (the fully symbolic field space is covered at
+			// filter level by VerifC12_FilterSequences): 2 instances x 2 signatures
+			m := &gpbft.GMessage{
+				Sender: 1,
+				Vote: gpbft.Payload{
+					Instance:         5 + uint64(sym.Choice("b-instance", 2)),
+					Phase:            gpbft.COMMIT_PHASE,
+					SupplementalData: gpbft.SupplementalData{PowerTable: gpbft.MakeCid([]byte("verif-pt"))},
+					Value:            gpbft.VerifChain(10, 1, 2),
+				},
+				Signature: []byte{byte(sym.Choice("b-sig", 2)), 7},
+			}
+			accepted := false
+			for _, p := range published {
+				if p.instance == m.Vote.Instance && p.sender == m.Sender && p.round == m.Vote.Round && p.phase == m.Vote.Phase &&
+					p.sig[0] == m.Signature[0] && p.sig[1] == m.Signature[1] {
+					accepted = true // an identical earlier broadcast
+				}
+			}
+			first := sym.Choice("kind", 2) == 0
+			before := verifWALHas(dir, m)
+			if first {
+				_ = r.BroadcastMessage(context.Background(), m)
+				sym.Cover("broadcast")
+			} else {
+				// rebroadcasts only ever re-send messages this node broadcast before
+				if !accepted {
+					sym.Assume(false)
+				}
+				_ = r.rebroadcastMessage(m)
+				sym.Cover("rebroadcast")
+			}
+			// did it pass the filter?  (the filter is deterministic: ask it again)
+			passed := r.equivFilter.ProcessBroadcast(m)
+			if passed {
+				sym.Cover("passed-filter")
+				sym.Assert(verifWALHas(dir, m), "a message that passes the filter is in the WAL before it can be published")
+				for _, p := range published {
+					sym.Assert(m.Vote.Instance >= p.instance, "never for an instance older than one already broadcast for")
+					same := p.instance == m.Vote.Instance && p.sender == m.Sender && p.round == m.Vote.Round && p.phase == m.Vote.Phase
+					sym.Assert(sym.Implies(same, p.sig[0] == m.Signature[0] && p.sig[1] == m.Signature[1]), "never two differently signed messages for one slot")
+				}
+				published = append(published, verifPublished{m.Vote.Instance, m.Sender, m.Vote.Round, m.Vote.Phase, [2]byte{m.Signature[0], m.Signature[1]}})
+			} else {
+				sym.Assert(verifWALHas(dir, m) == before, "a refused message is not recorded")
+			}
+		case 1:
+			sym.Cover("restart")
+			_ = r.wal.Close()
+			r, _ = verifRunner(dir)
+		}
 	}
 }
